@@ -137,3 +137,23 @@ Definition sc_case2 (p : sc_policy) (cap : nat) (answered abandoned : sc_srv) (k
   let r := sc_run2 p (mkAcct cap 0 0) steps in
   let outs := flat_map (fun o => match o with Some b => [b] | None => [] end) (fst r) in
   (firstn k (skipn 2 outs), skipn (2 + k) outs, sc_used (snd r)).
+
+(* =====================================================================================================================
+   Round 9 — opening a stream when the peer's limit is used up.
+   quic_transport.go exchangeConn: c.OpenStream() does not wait: without credit it fails at once ("too many open
+   streams") and exchangePayload's retries fail the same way, so the exchange returns immediately.  A variant that
+   WAITS for credit (OpenStreamSync) sits before the select on the caller's context, so what bounds the wait is the
+   context it is given: the caller's (deadline [dl]) or the transport's (cancelled only by Close).
+   [free_at] = when the peer hands out the next credit (None = never); time in any unit. *)
+Inductive so_mode := SoNoWait | SoWaitCaller | SoWaitTransport.
+
+(* when the open attempt returns; None = never *)
+Definition so_returns (md : so_mode) (dl : nat) (free_at : option nat) : option nat :=
+  match md with
+  | SoNoWait => Some 0
+  | SoWaitCaller => Some (match free_at with Some f => Nat.min f dl | None => dl end)
+  | SoWaitTransport => free_at
+  end.
+
+Definition so_within (md : so_mode) (dl slack : nat) (free_at : option nat) : bool :=
+  match so_returns md dl free_at with Some t => t <=? dl + slack | None => false end.
